@@ -252,7 +252,18 @@ func listen(n *Node, endpoint string, o ListenOpts) (client.Listener, error) {
 	up := &client.Upstream{URL: u, Token: o.Token, TenantID: o.TenantID,
 		MinReconnectBackoff: 20 * time.Millisecond, MaxReconnectBackoff: 200 * time.Millisecond}
 	if !o.CancelCtx {
-		return up.Listen(context.Background(), endpoint)
+		// a context that is never cancelled once the listener is connected, but
+		// that gives up connecting after 15 s (the client retries for ever
+		// against a node that is down)
+		ctx, cancel := context.WithCancel(context.Background())
+		timer := time.AfterFunc(15*time.Second, cancel)
+		ln, err := up.Listen(ctx, endpoint)
+		if err == nil {
+			timer.Stop()
+		} else {
+			cancel()
+		}
+		return ln, err
 	}
 	ctx, cancel := context.WithTimeout(context.Background(), 10*time.Second)
 	ln, err := up.Listen(ctx, endpoint)
